@@ -1,6 +1,6 @@
 (* C14 -- The parser follows the documented grammar and rejects everything else cleanly.
    Statements only; every proof is `exact <lemma>` (Proofs/ParserProofs.v, ParserProofs2.v, ParserProofsCanon.v,
-   ParserProofsFuel.v, ParserProofsX.v, ParserProofsConv.v, LexerProofs.v) or a closed computation.  The precedence tuple, productions, token list, reserved words and lexer regexes are
+   ParserProofsFuel.v, ParserProofsX.v, ParserProofsConv.v, ParserProofsShow*.v, LexerProofs.v) or a closed computation.  The precedence tuple, productions, token list, reserved words and lexer regexes are
    REGENERATED from parserYacc.py / parserLex.py (Gen/GrammarGen.v) on every run; the model parser reads its
    binding powers from that table, so these theorems are re-checked against what the source says now.
 
@@ -11,7 +11,8 @@ From Coq Require Import ZArith List Bool String Ascii Lia.
 From V Require Import Model.Expr Model.SqlExpr
                       Model.ExprTree Model.Lexer Model.Parser Model.ParserConv Gen.GrammarGen
                       Proofs.ParserProofs Proofs.ParserProofs2 Proofs.LexerProofs
-                      Proofs.ParserProofsCanon Proofs.ParserProofsFuel Proofs.ParserProofsX Proofs.ParserProofsConv.
+                      Proofs.ParserProofsCanon Proofs.ParserProofsFuel Proofs.ParserProofsX Proofs.ParserProofsConv
+                      Model.ParserShow Proofs.ParserProofsShow Proofs.ParserProofsShow2 Proofs.ParserProofsShow3.
 Import ListNotations.
 Close Scope Z_scope.   (* opened by Model/Expr.v *)
 Open Scope string_scope.
@@ -331,6 +332,53 @@ Example reparse_example :
                   (Binary (Tuple (Time "2020-01-01") (Ident "e")) BOverlaps (Call "f" [Num "1"]))))).
 Proof. vm_compute. reflexivity. Qed.
 
+(* ===================================================================== the round trip over STRINGS *)
+(* show_fix / show : Node.__str__ character for character (Model/ParserShow.v; compared with str(tree) on every run).
+   quote_free: no quote and no newline -- a T'...' literal cannot contain one. *)
+
+(* Python str(int), as printed in range literals, reads back as the same integer *)
+Theorem show_int_value : forall z r, not_digit_next r -> m_int (show_Z z ++ r) = Some (z, r).
+Proof. exact m_int_show_Z. Qed.
+Print Assumptions show_int_value.
+
+(* compositional: if every leaf payload is a text the lexer reads as its own token (payload_ok: numbers are numeric
+   spellings, strings are quote free, identifiers are identifiers that are not keywords, ...), the printed expression
+   lexes to exactly the printed token list -- whatever the tree shape, spaces, commas, parentheses, keywords *)
+Theorem lex_show : forall fixed tshow t, payload_ok fixed tshow t -> range_ok t = true ->
+  lex (string_of_list_ascii (show_g fixed tshow t)) = print_g fixed tshow t.
+Proof. exact lex_show_payload_p. Qed.
+Print Assumptions lex_show.
+
+(* every token the lexer emits carries such a payload, ranges have a stride >= 1 *)
+Theorem lexer_payloads_ok : forall s, Forall tok_ok2 (lex s).
+Proof. exact lex_tok_ok2. Qed.
+Print Assumptions lexer_payloads_ok.
+
+(* hence, for EVERY string that parses: lex (str(tree)) = print tree, and parsing str(tree) gives the tree back *)
+Theorem lex_show_parsed : forall tv tun, (forall v, quote_free (cs (tun v)) = true) ->
+  forall s t, parse_string tv s = POk (Some t) -> lex (string_of_list_ascii (show_fix tun t)) = print_fix tun t.
+Proof. exact lex_show_parsed_p. Qed.
+Print Assumptions lex_show_parsed.
+
+Theorem round_trip_string : forall tv tun, tun_inverts tv tun -> (forall v, quote_free (cs (tun v)) = true) ->
+  forall s t, parse_string tv s = POk (Some t) -> parse_string tv (string_of_list_ascii (show_fix tun t)) = POk (Some t).
+Proof. exact reparse_show_string_p. Qed.
+Print Assumptions round_trip_string.
+
+(* the same for the printer that exists, on trees without TimeLiteral / BindName (no hypothesis about astropy's text) *)
+Theorem round_trip_string_partial : forall tv tun, tun_inverts tv tun ->
+  forall tshow s t, parse_string tv s = POk (Some t) -> plain t = true ->
+  parse_string tv (string_of_list_ascii (show tshow t)) = POk (Some t).
+Proof. exact reparse_show_string_plain_p. Qed.
+Print Assumptions round_trip_string_partial.
+
+Example round_trip_string_example :
+  let s := "NOT a.b < -1 + c*2 OR d IN (-1, 2..5:3, :x) AND (T'2020-01-01', e) OVERLAPS f(1)" in
+  exists t, parse_string tv_id s = POk (Some t) /\
+    string_of_list_ascii (show_fix (fun v => v) t) = "NOT a.b < - 1 + c * 2 OR d IN (-1, 2..5:3, :x) AND (T'2020-01-01', e) OVERLAPS f(1)" /\
+    parse_string tv_id (string_of_list_ascii (show_fix (fun v => v) t)) = POk (Some t).
+Proof. eexists. split; [vm_compute; reflexivity|]. split; vm_compute; reflexivity. Qed.
+
 (* ===================================================================== the conversion layer (typing) *)
 (* of_tree : ExprTree.tree -> C05's Expr.expr (identifier / bind resolution res, bound as parameters), then C05's
    SqlExpr.conv (None = InvalidQueryError).  typeof = the documented typing (C05).  quirk_free e: no `/` and no IN
@@ -355,6 +403,20 @@ Theorem rejects_ill_typed_refuted :
   conv (EIn (EBegin (ECol 2%N TySpan)) [ILit (VTime 10); ILit (VTime 20)] false) <> None.
 Proof. exact rejects_ill_typed_refuted_p. Qed.
 Print Assumptions rejects_ill_typed_refuted.
+
+(* numeric literals have their documented values: a digit string is that integer (signed inside IN lists); decimal
+   and exponent spellings are the exact rational that was written (examples; compared with Python on every run) *)
+Theorem num_value_int : forall ds, ds <> [] -> forallb is_digit ds = true ->
+  num_value (string_of_list_ascii ds) = VInt (digits_val ds) /\
+  num_value (string_of_list_ascii ("-"%char :: ds)) = VInt (- digits_val ds) /\
+  num_value (string_of_list_ascii ("+"%char :: ds)) = VInt (digits_val ds).
+Proof. exact num_value_int_p. Qed.
+Print Assumptions num_value_int.
+
+Example num_value_examples :
+  num_value "007" = VInt 7 /\ num_value "-12" = VInt (-12) /\ num_value "1.5e3" = VReal 1500 1 /\ num_value ".5" = VReal 5 10 /\
+  num_value "1." = VReal 1 1 /\ num_value "2.E+2" = VReal 200 1 /\ num_value "1.5e-3" = VReal 15 10000 /\ num_value "1E3" = VReal 1000 1.
+Proof. vm_compute. repeat split; reflexivity. Qed.
 
 (* the whole path lexer, parser, of_tree, conv: what an accepted string is *)
 Theorem accept_spec : forall res bound tns tv tun s, tun_inverts tv tun -> where_verdict res bound tns tv s = Accept ->
